@@ -16,12 +16,16 @@ Proof. reflexivity. Qed.
 Lemma compile_path_constructors : (parse_lexer_ctor, parse_parser_ctor) = ("NewThreadSafeSyslLexer", "NewThreadSafeSyslParser").
 Proof. reflexivity. Qed.
 
-(* every other place that builds a lexer (expression debugger, language server) also deletes its entry when it is done;
-   a new site that forgets the delete fails here.  Which constructor the OTHER sites use is not an obligation: the
-   ANTLR runtime the repository pins guards its shared DFA caches with mutexes (see notes/C07.md, mutant M3) *)
+(* every other place that builds a lexer / parser (expression debugger, language server) does the same: per-instance
+   constructors (the generated ones share one package-level ATN, which the runtime writes to while parsing) and a
+   deferred delete of the map entry; a new site that does otherwise fails here *)
 Lemma every_lexer_state_is_deleted :
   forallb (fun s => match s with (_, _, _, deferred) => deferred end) lexer_sites = true.
 Proof. reflexivity. Qed.
+Lemma every_site_is_per_instance :
+  forallb (fun s => match s with (_, _, ctor, _) => String.eqb ctor "NewThreadSafeSyslLexer" end) lexer_sites = true /\
+  forallb (fun s => match s with (_, _, ctor) => String.eqb ctor "NewThreadSafeSyslParser" end) parser_sites = true.
+Proof. split; reflexivity. Qed.
 Lemma lexer_sites_are : map (fun s => match s with (f, fn, _, _) => (f, fn) end) lexer_sites =
   [("pkg/eval/debugger.go", "parseExpression"); ("pkg/lsp/impl/diagnostics.go", "diagnoseRaw"); ("pkg/parse/parse.go", "parseString")].
 Proof. reflexivity. Qed.
@@ -35,6 +39,15 @@ Lemma simulators_are : sim_args = [
   ("NewThreadSafeSyslParser", ["local"; "local"; "local"; "fresh:NewPredictionContextCache"]);
   ("NewSyslLexer", ["local"; "global:lexerAtn"; "global:lexerDecisionToDFA"; "fresh:NewPredictionContextCache"]);
   ("NewSyslParser", ["local"; "global:deserializedATN"; "global:decisionToDFA"; "fresh:NewPredictionContextCache"]) ].
+Proof. reflexivity. Qed.
+
+(* ... and they get there by deserialising an ATN of their own (statement shape of threadsafe_*.go: generated
+   constructor, new deserializer, DeserializeFromUInt16 of the serialized table, DFA slice made and filled from THAT
+   ATN, simulator built from exactly these, instance returned; nothing else).  Sharing the package-level ATN is a real
+   data race on this runtime - it writes a look-ahead cache into ATN states on the first visit of a grammar state -
+   which only a cold concurrent start exposes (harness: race:cold-start) *)
+Lemma per_instance_atn_is : per_instance_atn =
+  [("NewThreadSafeSyslLexer", "per-instance:serializedLexerAtn"); ("NewThreadSafeSyslParser", "per-instance:parserATN")].
 Proof. reflexivity. Qed.
 
 (* the state map: what Keyed.get / set / remove stand for.  The model takes these three operations to be atomic and
